@@ -43,6 +43,9 @@ pub struct Route {
     /// the -o path is the input file itself (the input is read completely before the result is
     /// written, so solving a file "in place" works)
     pub in_place: bool,
+    /// with `stdin`: the program is told `-i /dev/stdin` (a path that is not a regular file: its
+    /// length is unknown before it has been read) instead of reading standard input by default
+    pub dev_stdin: bool,
 }
 
 /// what a re-used output path holds before the run: an older, longer result object
@@ -69,10 +72,11 @@ impl Route {
         let stdin = r.coin(0.4);
         let stale_out = out_file && r.coin(0.5);
         let in_place = out_file && !stdin && !stale_out && r.coin(0.25);
-        Route { stdin, ext, flag, out_file, stale_out, in_place }
+        let dev_stdin = stdin && r.coin(0.15);
+        Route { stdin, ext, flag, out_file, stale_out, in_place, dev_stdin }
     }
     pub fn to_json(&self) -> Value {
-        json!({"stdin": self.stdin, "ext": self.ext, "flag": self.flag, "out_file": self.out_file, "stale_out": self.stale_out, "in_place": self.in_place})
+        json!({"stdin": self.stdin, "ext": self.ext, "flag": self.flag, "out_file": self.out_file, "stale_out": self.stale_out, "in_place": self.in_place, "dev_stdin": self.dev_stdin})
     }
     pub fn from_json(v: &Value) -> Route {
         Route {
@@ -82,6 +86,7 @@ impl Route {
             out_file: v["out_file"].as_bool().unwrap_or(false),
             stale_out: v["stale_out"].as_bool().unwrap_or(false),
             in_place: v["in_place"].as_bool().unwrap_or(false),
+            dev_stdin: v["dev_stdin"].as_bool().unwrap_or(false),
         }
     }
 }
@@ -203,6 +208,8 @@ pub struct ProcOut {
     /// a pre-existing -o file was still there, byte for byte, after the run
     /// the -o path was the input file itself
     pub in_place: bool,
+    /// the input came through `-i /dev/stdin`
+    pub dev_stdin: bool,
     pub stale_out_left_untouched: bool,
     /// the -o path existed (with older, longer content) before the run
     pub stale_out: bool,
@@ -260,6 +267,10 @@ pub fn run_simcli(bytes: &[u8], route: &Route, opts: &Opts, env: &SimEnv, extra_
         cmd.arg("--input-format").arg(f);
     }
     let mut in_path = None;
+    let own_input = extra_args.iter().any(|a| a == "-i" || a == "--input");
+    if route.stdin && route.dev_stdin && !own_input {
+        cmd.arg("-i").arg("/dev/stdin");
+    }
     if !route.stdin {
         let name = if route.ext.is_empty() { "game".to_string() } else { format!("game.{}", route.ext) };
         let path = scratch.0.join(name);
@@ -338,6 +349,7 @@ pub fn run_simcli(bytes: &[u8], route: &Route, opts: &Opts, env: &SimEnv, extra_
         out_file: if route.out_file { std::fs::read(&out_path).ok().filter(|b| !(route.stale_out && b == STALE_OUTPUT.as_bytes()) && !(in_place && &b[..] == bytes)) } else { None },
         stale_out: route.out_file && route.stale_out,
         in_place,
+        dev_stdin: route.stdin && route.dev_stdin && !own_input,
         stale_out_left_untouched: route.out_file && route.stale_out && std::fs::read(&out_path).ok().map(|b| b == STALE_OUTPUT.as_bytes()).unwrap_or(false),
         report: std::fs::read_to_string(&report).ok().and_then(|s| serde_json::from_str(&s).ok()),
         timed_out,
